@@ -8,11 +8,19 @@ PROP = {
                    "bounded driver polls, and that outcome is a cancellation error or genuine (Ok(n) only with n tagged bytes really "
                    "written, accept only with a real connection, never Ok(0) on an open stream); operations nobody cancelled never "
                    "report cancellation and later complete with their own data; firing a token twice / after completion is a no-op."),
-    "level_note": ("Driver-level routes (Proactor::cancel, cancel_token, key drop). The runtime-level routes (future drop, CancelToken "
-                   "combinator, time::timeout) sit on top of exactly these calls and are exercised by the C09/C14 workloads. "
+    "level_note": ("Legs `plain`/`asan`: driver-level routes (Proactor::cancel, cancel_token, key drop). Legs `rt`/`rt-asan`: the "
+                   "runtime-level routes — future dropped select-style, CancelToken through with_cancel (plain, fail_fast, nested: "
+                   "innermost wins, combined with with_personality either way round, registered after the fire), time::timeout — on "
+                   "tasks of one runtime the harness turns itself (run + poll_with), 2-7 receive / pipe-read / accept / readiness "
+                   "operations, several per descriptor. Oracles there: an operation whose route fired has an outcome within one "
+                   "runtime turn per started operation plus four; outcome is a cancellation error or a genuine result (bytes are the "
+                   "next bytes of a position-tagged stream); every other operation stays pending, never fails, and after a barrier "
+                   "receives every byte sent (a cancelled/dropped operation that still consumes is seen as a gap). "
                    "Thread-pool operations are excluded as documented (not interruptible); they are only checked to be unaffected."),
     "technique": "runtime monitoring: bounded-progress + honesty oracle over seeded cancellation soups, event-log checker",
-    "rule": SOUP_RULE + "; C05 weighting: cancel/token actions dominate; non-trivial if a cancel hit a pending op",
+    "rule": SOUP_RULE + ("; C05 weighting: cancel/token actions dominate; non-trivial if a cancel hit a pending op. rt legs: a case is "
+                         "one program; non-trivial if some route fired while its operation was pending; distinct = (driver, op kind, "
+                         "route, fired?, registered-late?, descriptor shared?, outcome class)"),
     "assumptions": ["ECANCELED is the cancellation error on both drivers"],
     "legs": [
         {"name": "plain", "build": "plain", "pkg": "vdrv", "cmd": "c05", "shards": 16,
@@ -20,6 +28,12 @@ PROP = {
          "timeout_s": {"quick": 240, "thorough": 900}},
         {"name": "asan", "build": "asan", "pkg": "vdrv", "cmd": "c05", "shards": 8,
          "args": {"quick": ["--no-canary", "--iters", 60, "--budget-ms", 45000], "thorough": ["--no-canary", "--iters", 1500, "--budget-ms", 420000]},
+         "timeout_s": {"quick": 240, "thorough": 900}},
+        {"name": "rt", "build": "plain", "pkg": "vdrv", "cmd": "c05r", "shards": 8,
+         "args": {"quick": ["--iters", 400, "--budget-ms", 50000], "thorough": ["--iters", 12000, "--budget-ms", 420000]},
+         "timeout_s": {"quick": 240, "thorough": 900}},
+        {"name": "rt-asan", "build": "asan", "pkg": "vdrv", "cmd": "c05r", "shards": 4,
+         "args": {"quick": ["--iters", 100, "--budget-ms", 45000], "thorough": ["--iters", 3000, "--budget-ms", 420000]},
          "timeout_s": {"quick": 240, "thorough": 900}},
     ],
 }
